@@ -16,7 +16,17 @@ import (
 	"golang.org/x/tools/go/ssa/ssautil"
 )
 
-const verifRoot = "/verif"
+// verifRoot is the /verif tree the harness sources, KNOWN_FINDINGS, evidence and replay files live in; repoRoot the
+// repository under check. Both can be redirected (VERIF_ROOT / VERIF_REPO) for work in scratch worktrees.
+var verifRoot = envOr("VERIF_ROOT", "/verif")
+var repoRoot = envOr("VERIF_REPO", "/repo")
+
+func envOr(k, d string) string {
+	if v := os.Getenv(k); v != "" {
+		return v
+	}
+	return d
+}
 
 var ssaMu sync.Mutex // guards lazy go/ssa building (package Build, method synthesis)
 
@@ -142,6 +152,7 @@ type HarnessResult struct {
 
 func runHarness(lp *LoadedPkg, hs *HarnessSpec, tier int, workers int, verbose bool) *HarnessResult {
 	res := &HarnessResult{Spec: hs, LoadS: lp.loadS}
+	hs.lp = lp
 	fn := lp.pkg.Func(hs.Entry)
 	if fn == nil {
 		res.Err = "no entry function " + hs.Entry
